@@ -563,7 +563,51 @@ def rule_d(ctx, out):
                             "object nor the optimizer's result", where(f, st))
 
 
+def rule_e(ctx, out):
+    """A block costs the same in both spellings of its zero pushes.  The input side of the acceptance test holds parsed items (a zero push
+    is the item PUSH0 without value when PUSH0 is allowed), the candidate side holds rebuilt items (PUSH with value "0"); AsmBlock.gas_spent
+    follows the stack to price warm and cold accesses, so the two spellings must lead to the same warm/cold decisions as well as to the same
+    opcode price.  gas_spent is interpreted (with the item class's own pricing methods) on blocks that touch one slot twice through their
+    own zero pushes, in the parsed and in the rebuilt spelling, with PUSH0 allowed and not."""
+    from ..core.interp import ModuleInterp
+    from ..core.minieval import Unsupported, Raised
+    bcls = ctx.p.cls("sfs_generator.asm_block.AsmBlock")
+    icls = ctx.p.cls("sfs_generator.asm_bytecode.AsmBytecode")
+    gs = bcls.methods.get("gas_spent")
+    if gs is None:
+        raise AnalysisError("AsmBlock.gas_spent not found")
+    shapes = [["Z", "SLOAD", ("PUSH", "1"), "ADD", "Z", "SSTORE"], ["Z", "SLOAD", "Z", "SLOAD", "ADD"], [("PUSH", "7"), "Z", "SSTORE", ("PUSH", "8"), "Z", "SSTORE"],
+              ["Z", "BALANCE", "Z", "EXTCODESIZE", "ADD"]]
+    n = 0
+    for enabled in (True, False):
+        mi = ModuleInterp(ctx, max_steps=200000, extern={"sfs_generator.utils.compute_stack_size": lambda *a, **k: 0, "compute_stack_size": lambda *a, **k: 0})
+        Item, Blk = mi.fake_class(icls), mi.fake_class(bcls)
+        make = mi.constructor(icls, lambda: Item())
+        mi.module_env("global_params.constants")["push0_enabled"] = enabled
+        for shape in shapes:
+            totals = {}
+            for spelling, z in (("parsed", ("PUSH0", None) if enabled else ("PUSH", "0")), ("rebuilt", ("PUSH", "0"))):
+                items = [make(-1, -1, -1, *(z if x == "Z" else x if isinstance(x, tuple) else (x, None))) for x in shape]
+                try:
+                    totals[spelling] = mi.call(gs, Blk(_instructions=items))
+                except Raised as e:
+                    totals[spelling] = f"raises {e.what}"
+                except Unsupported as e:
+                    raise AnalysisError(f"AsmBlock.gas_spent cannot be evaluated abstractly on {shape} ({spelling}): {e}")
+            n += 1
+            if totals["parsed"] == totals["rebuilt"] and isinstance(totals["parsed"], int):
+                out.ok({"block": " ".join(x if isinstance(x, str) else " ".join(x) for x in shape), "push0_enabled": enabled, "gas": totals["parsed"]})
+            else:
+                out.bad(f"block-gas-depends-on-the-spelling-of-zero-pushes:{'push0' if enabled else 'no-push0'}", f"AsmBlock.gas_spent prices the block "
+                        f"`{' '.join(x if isinstance(x, str) else ' '.join(x) for x in shape)}` (Z = a zero push) at {totals['parsed']} in the parsed spelling and "
+                        f"{totals['rebuilt']} in the rebuilt one (PUSH0 {'allowed' if enabled else 'not allowed'}): the acceptance test compares an input and a "
+                        f"candidate that are priced by different rules", where(gs))
+    if n < 8:
+        raise AnalysisError(f"only {n} blocks priced")
+
+
 RULES = [
+    ("C17.e", "a block costs the same in both spellings of its zero pushes (warm/cold accesses included)", 8, rule_e),
     ("C17.a", "PUSH0 flag discipline", 10, rule_a),
     ("C17.b", "who may produce the PUSH0 spelling", 12, rule_b),
     ("C17.c", "one predicate, one price for both spellings of a zero push", 10, rule_c),
